@@ -187,7 +187,7 @@ def zero_trip_lines(prog, mod, args, dec):
     return zero
 
 
-def classify(prog, mod, args, dec, static, orig_outcome=None):
+def classify(prog, mod, args, dec, static, orig_outcome=None, raised_at_del=False):
     """Finding class of a failing case, or None (= new violation)."""
     if 'for_target_rebound_elsewhere_and_read_after_loop' in static:
         return 'for_target_rebound_elsewhere_and_read_after_loop'
@@ -195,7 +195,7 @@ def classify(prog, mod, args, dec, static, orig_outcome=None):
         return 'local_first_bound_by_closure_call'
     if 'nested_fn_param_leaks_into_enclosing_bound' in static:
         return 'nested_fn_param_leaks_into_enclosing_bound'
-    if 'del_of_unbound_name_does_not_raise' in static and orig_outcome == ('exc', 'NameError'):
+    if 'del_of_unbound_name_does_not_raise' in static and orig_outcome == ('exc', 'NameError') and raised_at_del:
         return 'del_of_unbound_name_does_not_raise'
     for k in ('read_in_class_body', 'namedexpr_in_call_argument', 'call_in_return_annotation_of_nested_def', 'lambda_in_decorator_of_nested_def',
               'docstring_only_function_body',
@@ -226,6 +226,13 @@ def run_observe(mod, fn, args, dec):
         raise
     except BaseException as e:  # noqa
         out = ('exc', 'NameError' if isinstance(e, NameError) else type(e).__name__)
+        # where (in the program's own file) was it raised?  used only by class predicates on the ORIGINAL run
+        tb, line = e.__traceback__, None
+        while tb is not None:
+            if tb.tb_frame.f_code.co_filename == getattr(mod, '__file__', None):
+                line = tb.tb_lineno
+            tb = tb.tb_next
+        run_observe.last_raise_line = line
     lists = [mod._freeze(x) for x in a if isinstance(x, list)]
     return out, list(mod.LOG), mod.G, lists
 
@@ -297,7 +304,12 @@ def worker(spec):
             ncfg = spec['configs_per_program']
             chosen = cfgs if ncfg >= len(cfgs) else [cfgs[(pi + k * 3) % len(cfgs)] for k in range(ncfg)]
             runs = [(a, d) for a in p.inputs for d in p.decisions][:spec['runs_per_program']]
-            refs = [run_observe(mod, mod.f, a, d) for (a, d) in runs]
+            refs, ref_raise_lines = [], []
+            for (a, d) in runs:
+                run_observe.last_raise_line = None
+                refs.append(run_observe(mod, mod.f, a, d))
+                ref_raise_lines.append(run_observe.last_raise_line)
+            src_lines = p.source.split('\n')
             for c in chosen:
                 cname = cfg_name(c)
                 res['configs'][cname] = res['configs'].get(cname, 0) + 1
@@ -316,7 +328,8 @@ def worker(spec):
                     except BaseException as e:  # noqa
                         pass
                 for vname, conv in variants:
-                    for (a, d), r0 in zip(runs, refs):
+                    for (a, d), r0, rl in zip(runs, refs, ref_raise_lines):
+                        raised_at_del = bool(rl and 0 < rl <= len(src_lines) and src_lines[rl - 1].strip().startswith('del '))
                         r1 = run_observe(mod, conv, a, d)
                         res['cases'] += 1
                         k = r0[0][0] if r0[0][0] == 'ret' else r0[0][1]
@@ -337,7 +350,7 @@ def worker(spec):
                                 what += ': module global differs'
                             else:
                                 what += ': mutable argument state differs'
-                            res['failures'].append({'what': what, 'cls': classify(p, mod, a, d, static, r0[0]),
+                            res['failures'].append({'what': what, 'cls': classify(p, mod, a, d, static, r0[0], raised_at_del),
                                                     'case': dict(p.to_json(), config=cname, variant=vname, args=list(a), decisions=list(d),
                                                                  original=repr(r0)[:600], converted=repr(r1)[:600])})
                 if len(res['samples']) < 2 and pi % 7 == 3:
